@@ -341,7 +341,7 @@ pub fn record(seed: u64, runs: u64, target: usize, path: &str, max_profile: usiz
             input = family[k as usize].clone();
             op = ["write_all", "write_fmt", "write"][(k % 3) as usize];
             if input.starts_with(b"\x1b]52") {
-                op = ["write", "vectored"][(k % 2) as usize];      // the entry points that report a count
+                op = "write";      // the entry point that is handed the whole buffer and reports a count
             }
         }
         bytes += input.len() as u64;
